@@ -47,9 +47,9 @@ def kSerializedHmac : Bytes := [115, 101, 114, 105, 97, 108, 105, 122, 101, 100,
 inductive Verdict | verified | notSigned | malformed | mismatch
   deriving DecidableEq, Repr
 
-/-- verification of a stored cloudevents-json document (with its trailing newline) -/
-def verify (signer : Bytes → Option Bytes) (stored : Bytes) : Verdict :=
-  match parseDoc stored.dropLast with
+/-- verification of a document given without its trailing newline -/
+def verifyDoc (signer : Bytes → Option Bytes) (doc : Bytes) : Verdict :=
+  match parseDoc doc with
   | some (.obj ms) =>
     match member kSerialized ms, member kSerializedHmac ms with
     | some (.str ser), some (.str mac) =>
@@ -59,5 +59,12 @@ def verify (signer : Bytes → Option Bytes) (stored : Bytes) : Verdict :=
     | none, none => .notSigned
     | _, _ => .malformed
   | _ => .malformed
+
+/-- verification of a stored cloudevents-json document (with its trailing newline) -/
+def verify (signer : Bytes → Option Bytes) (stored : Bytes) : Verdict := verifyDoc signer stored.dropLast
+
+/-- a consumer of cloudevents-text: compact the stored document (`json.Compact`), then as for
+cloudevents-json -/
+def verifyText (signer : Bytes → Option Bytes) (stored : Bytes) : Verdict := verifyDoc signer (compact stored)
 
 end Evl.CloudEvents
